@@ -26,9 +26,9 @@ inductive Tok where
   | bad
   deriving Repr, DecidableEq
 
-/-- `Text._clean` -/
+/-- `Text._clean` (since f945b9c: the same encodings as `util.clean`, a value above 1e30 is missing) -/
 def textClean : Tok → XR
   | .bad => .nan
-  | .num v => if XR.eqb v (.fin (-999)) then .nan else v
+  | .num v => if XR.eqb v (.fin (-999)) || XR.gt v (.fin 1000000000000000019884624838656) then .nan else v
 
 end VerifModel
